@@ -325,8 +325,13 @@ def build_objects(case, mat, u):
         vrnt_mask=None,
     )
     pg.group_vrnt()
+    # every other case: a model that also has miscellaneous (non-marker) random effects and a non-zero intercept; block values
+    # and optimal values are statements about the ADDITIVE marker effects only
+    sd = int(case.get("seed", 0))
+    rs = numpy.random.RandomState(sd % (2 ** 31))
+    misc = rs.uniform(-3, 3, size=(1 + sd % 3, t)) if sd % 2 else None
     gp = DenseAdditiveLinearGenomicModel(
-        beta=numpy.zeros((1, t)), u_misc=None, u_a=u.astype("float64").copy(),
+        beta=rs.uniform(-2, 2, size=(1, t)) if sd % 2 else numpy.zeros((1, t)), u_misc=misc, u_a=u.astype("float64").copy(),
         trait=numpy.array(["trait%d" % i for i in range(t)], dtype=object))
     return pg, gp
 
